@@ -75,7 +75,26 @@ func (s *c20Spy) Type() datatype.TypeID {
 	return datatype.UnknownType
 }
 
+// c20Shared, when non-nil, makes c20Build hand out ONE node object for equal group subtrees: the
+// application attaches a prebuilt group (a template) in several places of the same message. The
+// tree is then a DAG; a search must still report every occurrence, in pre-order.
+var c20Shared map[string]*diam.AVP
+
 func c20Build(t T) *diam.AVP {
+	if c20Shared != nil && t.K != 0 && t.K != 1 && t.K != 4 {
+		key := t.String()
+		if a, ok := c20Shared[key]; ok {
+			return a
+		}
+		saved := c20Shared
+		a := c20BuildNode(t)
+		saved[key] = a
+		return a
+	}
+	return c20BuildNode(t)
+}
+
+func c20BuildNode(t T) *diam.AVP {
 	switch t.K {
 	case 0:
 		return diam.NewAVP(264, 0x40, 0, datatype.DiameterIdentity("h"))
@@ -141,6 +160,36 @@ func samePtrs(a, b []*diam.AVP) bool {
 type C20Case struct {
 	Tree []T
 	Priv bool // the message carries a private dictionary that names the codes differently
+	// Share: equal group subtrees are one node object attached in several places
+	Share bool `json:",omitempty"`
+}
+
+// c20HasRepeat reports whether a group subtree occurs more than once in the forest.
+func c20HasRepeat(ts []T) bool {
+	seen := map[string]bool{}
+	var walk func(t T) bool
+	walk = func(t T) bool {
+		if t.K == 0 || t.K == 1 || t.K == 4 {
+			return false
+		}
+		k := t.String()
+		if seen[k] {
+			return true
+		}
+		for _, c := range t.Kids {
+			if walk(c) {
+				return true
+			}
+		}
+		seen[k] = true
+		return false
+	}
+	for _, t := range ts {
+		if walk(t) {
+			return true
+		}
+	}
+	return false
 }
 
 // c20PrivXML: the four codes of the alphabet under other names, and the names the default
@@ -190,9 +239,14 @@ func c20Eval(cs C20Case) (res string, queries int) {
 		m = diam.NewMessage(257, 0x80, 0, 1, 1, c20PrivDict())
 		c20Names, c20AbsentName = c20PrivNames, "Priv-Session"
 	}
+	if cs.Share {
+		c20Shared = map[string]*diam.AVP{}
+		defer func() { c20Shared = nil }()
+	}
 	for _, t := range cs.Tree {
 		m.AddAVP(c20Build(t))
 	}
+	c20Shared = nil
 	pass := func() (string, int) {
 		queries := 0
 		type q struct {
@@ -395,6 +449,9 @@ func c20Enum(ctx *ev.Ctx, fn func(C20Case)) string {
 		if ctx.Mine() {
 			fn(C20Case{Tree: t})
 			fn(C20Case{Tree: t, Priv: true})
+			if c20HasRepeat(t) {
+				fn(C20Case{Tree: t, Share: true})
+			}
 		}
 	}
 	// top level: every single depth-2 node; every pair and triple of depth-1 nodes; pairs of
@@ -417,7 +474,7 @@ func c20Enum(ctx *ev.Ctx, fn func(C20Case)) string {
 			}
 		}
 	}
-	return "all AVP trees over two leaf codes, two grouped codes and one leaf that carries the code of a Grouped AVP under a foreign vendor id (opaque data, not a group) and one container whose code the dictionary declares as OctetString but which the application assembled as a group: every single node of nesting depth <=3 with inner width <=3 (outermost group: <=2 children quick, <=3 thorough), alone and next to a leaf in both orders; every ordered pair (and a family of triples) of depth-<=2 nodes; empty groups, repeated codes at several depths, groups in groups. Per tree: FindAVP and FindAVPs by uint32, int and name for every code of the alphabet, a defined but absent code, an undefined code and an undefined name; FindAVPsWithPath for every path of length <=3 over the alphabet plus the absent code, alternating number and name per step. Every tree is searched twice: in a message carrying dict.Default and in one carrying a private dictionary that names the four codes differently and attaches the default names to codes absent from the tree (a name must resolve through the message's own dictionary). After the first round of queries each message is edited without going through Message.AddAVP / InsertAVP (a member added to its first group, its first top-level AVP cut out of the exported slice, its AVPs replaced by Marshal) and every query is asked again. Path searches are also made overlapping in time (a nested search on another message, started from inside the outer one through a caller-defined data type) after a search whose path did not resolve. Results are compared by pointer identity with a pre-order reference walk / strict per-level match."
+	return "all AVP trees over two leaf codes, two grouped codes and one leaf that carries the code of a Grouped AVP under a foreign vendor id (opaque data, not a group) and one container whose code the dictionary declares as OctetString but which the application assembled as a group: every single node of nesting depth <=3 with inner width <=3 (outermost group: <=2 children quick, <=3 thorough), alone and next to a leaf in both orders; every ordered pair (and a family of triples) of depth-<=2 nodes; empty groups, repeated codes at several depths, groups in groups. Per tree: FindAVP and FindAVPs by uint32, int and name for every code of the alphabet, a defined but absent code, an undefined code and an undefined name; FindAVPsWithPath for every path of length <=3 over the alphabet plus the absent code, alternating number and name per step. Every tree is searched twice: in a message carrying dict.Default and in one carrying a private dictionary that names the four codes differently and attaches the default names to codes absent from the tree (a name must resolve through the message's own dictionary). After the first round of queries each message is edited without going through Message.AddAVP / InsertAVP (a member added to its first group, its first top-level AVP cut out of the exported slice, its AVPs replaced by Marshal) and every query is asked again. Path searches are also made overlapping in time (a nested search on another message, started from inside the outer one through a caller-defined data type) after a search whose path did not resolve. Every tree in which a group subtree occurs more than once is also built with ONE node object for all its occurrences (a prebuilt group attached in several places): every occurrence must still be reported, in pre-order. Results are compared by pointer identity with a pre-order reference walk / strict per-level match."
 }
 
 func runC20(ctx *ev.Ctx) {
@@ -430,6 +487,9 @@ func runC20(ctx *ev.Ctx) {
 		s := treeString(cs.Tree)
 		if cs.Priv {
 			s += " [private dictionary]"
+		}
+		if cs.Share {
+			s += " [equal groups are one shared node]"
 		}
 		ctx.Eval(ev.HS(s))
 		if n%20000 == 0 {
